@@ -1,3 +1,103 @@
-(* C27 — placeholder until the theorems are in (pipeline first). *)
-From Coq Require Import NArith List.
-From LV Require Import model.CachedProducer spec.CachedProducerSpec.
+(* C27 — Caching producer reference-counts opens (after the repair fixes/C27.patch).
+   Only theorem statements, each closed by [exact <lemma>], Examples, Print Assumptions.
+   Model: model/CachedProducer.v ([wrap] = Wrap, [wrap_all] = WrapAll, both over the shared
+   openDB); specification: spec/CachedProducerSpec.v (a predicate on observable traces).
+   A trace item is (operation, result, underlying producer/store calls).  [balance name pre] =
+   successful opens - successful closes of name in the prefix, [cur name pre] = the store
+   created by the latest underlying OpenDB(name).  Histories are by-name: Close/Drop go to the
+   handle most recently returned for the name. *)
+From Coq Require Import NArith List Bool.
+From LV Require Import model.CachedProducer spec.CachedProducerSpec proofs.CachedProducerProofs proofs.CachedProducerOnce.
+Import ListNotations.
+Local Open Scope N_scope.
+
+(* every open/close/drop history of either constructor satisfies the whole specification *)
+Theorem C27_trace_spec_all_histories :
+  forall s0 ops, s0 = wrap \/ s0 = wrap_all -> forallb by_name_op ops = true ->
+  trace_ok (snd (crun s0 ops)) = true.
+Proof. exact trace_ok_all. Qed.
+
+(* ... and its four sentences, spelled out.  1: same store while open, producer untouched *)
+Theorem C27_open_while_open_returns_same_store :
+  forall s0, s0 = wrap \/ s0 = wrap_all -> forall ops, forallb by_name_op ops = true ->
+  forall pre post r ev name f,
+  snd (crun s0 ops) = pre ++ (COpen name f, r, ev) :: post -> 0 < balance name pre ->
+  exists u, cur name pre = Some u /\ r = RHandle u /\ ev = [].
+Proof. exact open_while_open. Qed.
+
+Theorem C27_open_when_closed_opens_underlying_once :
+  forall s0, s0 = wrap \/ s0 = wrap_all -> forall ops, forallb by_name_op ops = true ->
+  forall pre post r ev name f,
+  snd (crun s0 ops) = pre ++ (COpen name f, r, ev) :: post -> balance name pre = 0 ->
+  if f then r = ROpenErr /\ ev = [UOpenFail name]
+  else exists u, r = RHandle u /\ ev = [UOpen name u] /\ used_uid u pre = false.
+Proof. exact open_when_closed. Qed.
+
+(* 2 + 3: underlying Close exactly when the count goes 1 -> 0; over-closing is an error *)
+Theorem C27_close_underlying_exactly_at_last_close :
+  forall s0, s0 = wrap \/ s0 = wrap_all -> forall ops, forallb by_name_op ops = true ->
+  forall pre post r ev name,
+  snd (crun s0 ops) = pre ++ (CClose name, r, ev) :: post ->
+  match cur name pre with
+  | None => r = RNoHandle /\ ev = []
+  | Some u => (balance name pre = 0 -> r = ROverClose /\ ev = []) /\
+              (balance name pre = 1 -> r = ROk /\ ev = [UClose u]) /\
+              (1 < balance name pre -> r = ROk /\ ev = [])
+  end.
+Proof. exact close_cases. Qed.
+
+(* ... and no underlying store is ever closed twice ([closes] = the store ids of all underlying
+   Close calls of the trace, in order); store ids are produced by one underlying open each, and
+   only opened stores are closed.  With the theorem above: closed exactly once, at the last close. *)
+Theorem C27_each_store_closed_at_most_once :
+  forall s0 ops, s0 = wrap \/ s0 = wrap_all -> forallb by_name_op ops = true ->
+  NoDup (closes (snd (crun s0 ops))) /\ NoDup (map snd (uopens (snd (crun s0 ops)))) /\
+  (forall u, In u (closes (snd (crun s0 ops))) -> exists n, In (n, u) (uopens (snd (crun s0 ops)))).
+Proof. exact closes_once_all_histories. Qed.
+
+Theorem C27_over_close_touches_nothing :
+  forall s u name, count_of name s = 0 -> close_h u name s = (s, ROverClose, []).
+Proof. exact over_close_touches_nothing. Qed.
+
+(* 4: the underlying Drop runs at most once per OpenDB call *)
+Theorem C27_drop_reaches_underlying_iff_droppable :
+  forall s0, s0 = wrap \/ s0 = wrap_all -> forall ops, forallb by_name_op ops = true ->
+  forall pre post r ev name,
+  snd (crun s0 ops) = pre ++ (CDrop name, r, ev) :: post ->
+  match cur name pre with
+  | None => r = RNoHandle /\ ev = []
+  | Some u => r = ROk /\ ev = (if droppable name pre then [UDrop u] else [])
+  end.
+Proof. exact drop_cases. Qed.
+
+Theorem C27_not_droppable_again_before_next_open :
+  forall name (pre mid : list titem) ev,
+  forallb (no_open_of name) mid = true ->
+  droppable name (pre ++ (CDrop name, ROk, ev) :: mid) = false.
+Proof. exact droppable_after_drop. Qed.
+
+(* no history at all (stale handles included) panics or blocks after the repair *)
+Theorem C27_never_panics :
+  forall ops s s' tr, dead s = false -> ref_nil s = false -> crun s ops = (s', tr) ->
+  forall o r ev, In (o, r, ev) tr -> r <> RPanic /\ r <> RDead.
+Proof. exact never_panics. Qed.
+
+(* non-vacuity: a history with a cached open, a counted-down close, the real close, an
+   over-close, a guarded second drop and a re-open with a fresh store *)
+Example C27_ex_history :
+  snd (crun wrap [COpen 0 false; COpen 0 false; CClose 0; CDrop 0; CDrop 0; CClose 0; CClose 0; COpen 0 false]) =
+  [(COpen 0 false, RHandle 0, [UOpen 0 0]); (COpen 0 false, RHandle 0, []); (CClose 0, ROk, []);
+   (CDrop 0, ROk, [UDrop 0]); (CDrop 0, ROk, []); (CClose 0, ROk, [UClose 0]); (CClose 0, ROverClose, []);
+   (COpen 0 false, RHandle 1, [UOpen 0 1])] /\
+  dead wrap = false /\ ref_nil wrap = false /\ dead wrap_all = false /\ ref_nil wrap_all = false.
+Proof. vm_compute. repeat split; reflexivity. Qed.
+
+Print Assumptions C27_trace_spec_all_histories.
+Print Assumptions C27_open_while_open_returns_same_store.
+Print Assumptions C27_open_when_closed_opens_underlying_once.
+Print Assumptions C27_close_underlying_exactly_at_last_close.
+Print Assumptions C27_each_store_closed_at_most_once.
+Print Assumptions C27_over_close_touches_nothing.
+Print Assumptions C27_drop_reaches_underlying_iff_droppable.
+Print Assumptions C27_not_droppable_again_before_next_open.
+Print Assumptions C27_never_panics.
